@@ -252,8 +252,13 @@ def main():
     allv = []
     for key, v in agg.viol.items():
         allv.append((v["prop"], key, v["first"].get("detail", ""), v["first"], v["n"]))
+    syn = {}
     for (p, key, detail, cmd) in synthetic:
-        allv.append((p, key, detail, {"cmd": cmd}, 1))
+        if key in syn:
+            syn[key][4] += 1
+        else:
+            syn[key] = [p, key, detail, {"cmd": cmd}, 1]
+    allv.extend(tuple(v) for v in syn.values())
     for (p, key, detail, first, n) in sorted(allv, key=lambda x: x[1]):
         e = match_known(known, p, key)
         if e:
